@@ -283,7 +283,9 @@ def install(I):
             if src.kind == "bool" and skolem_valid(lambda i: mkbool(bnot(bterm(src.at(i)))), src.length, "nonetrue"):
                 return start      # no element is true under the current hypotheses
             f = src.fold("+")
-            return I.binop_add(start, f.at(src.length))
+            r = I.binop_add(start, f.at(src.length))
+            I.trace.setdefault("sum", []).append((r, src))
+            return r
         acc = start
         for v in I.iterate(src):
             acc = I.binop_add(acc, v)
